@@ -12,6 +12,7 @@ import (
 	"sort"
 	"strings"
 	"time"
+	"unicode/utf16"
 
 	"encoding/json"
 	"github.com/rkosegi/yaml-toolkit/common"
@@ -523,6 +524,21 @@ func init() {
 				o := c01Opts(r)
 				if js {
 					o.floats = false
+				}
+				if !js && r.Intn(6) == 0 {
+					// a document longer than one read of the decoder, with a multi-byte character wherever a read may end
+					// (yaml.v3 reads in pieces of at most 512 bytes), or written in UTF-16 with a byte order mark
+					pad := 480 + r.Intn(80)
+					t := "k: " + strings.Repeat("a", pad) + []string{"é", "世", "😀"}[r.Intn(3)] + strings.Repeat("b", r.Intn(40)) + "\nz: 1\n"
+					if r.Intn(4) == 0 {
+						u := utf16.Encode([]rune("a: é\nb: [1, 2]\n"))
+						bs := []byte{0xff, 0xfe}
+						for _, c := range u {
+							bs = append(bs, byte(c), byte(c>>8))
+						}
+						t = string(bs)
+					}
+					return c01Text(t, false)
 				}
 				return c01Text(renderText(r, genDoc(r, o), js), js)
 			}
